@@ -451,11 +451,14 @@ func (r *Reconciler) selectNodes(logger logr.Logger, daemonset *datadoghqv1alpha
 				if nb := antiAffinityKeysValues[antiAffinityKeysValue]; nb >= (nbCanaryPod+len(antiAffinityKeysValues)-1)/len(antiAffinityKeysValues) {
 					continue
 				}
-				antiAffinityKeysValues[antiAffinityKeysValue]++
 			}
 
 			if scheduler.CheckNodeFitness(logger, newPod, &node) {
 				currentNodes = append(currentNodes, node.Name)
+				// only a node that is actually selected counts against the quota of its label value
+				if len(daemonsetSpec.Strategy.Canary.NodeAntiAffinityKeys) != 0 {
+					antiAffinityKeysValues[getAntiAffinityKeysValue(&node, daemonsetSpec)]++
+				}
 			}
 			// All nodes are found. We can exit now!
 			if len(currentNodes) == nbCanaryPod {
